@@ -31,6 +31,70 @@ class Tracker:
         self.sc = ctx.an.scope(f)
         self.P = ctx.eff.paths(f)
         self.unknown: List[Tuple[Node, str]] = []
+        self._site_no: Dict[int, int] = {}
+        self._qcache: Dict[Tuple[int, int], ast.AST] = {}
+        self.extra_locals: Set[str] = set()
+
+    # ---------------------------------------------------- frames of spliced helpers
+    # Steps of a helper spliced into f use the helper's own names.  They are rewritten into one flat name space: a parameter
+    # bound to a plain variable of the caller IS that variable (same object), every other helper local gets the suffix @<site>,
+    # `return v` becomes `__ret@<site> = v` and the call expression in the caller reads `__ret@<site>`.
+    def site_no(self, call_id: int) -> int:
+        return self._site_no.setdefault(call_id, len(self._site_no) + 1)
+
+    def qname(self, frame: FuncInfo, env, name: str) -> str:
+        if env is None:
+            return name
+        sc = self.ctx.an.scope(frame)
+        if name in env and name in sc.params and not sc.defs.get(name):
+            caller, arg, cenv = env[name]
+            if isinstance(arg, ast.Name):
+                return self.qname(caller, cenv, arg.id)
+        if name not in sc.params and name not in sc.defs:
+            return name  # global / builtin
+        q = f"{name}@{self.site_no(self.ctx.an.env_site.get(id(env), id(env)))}"
+        self.extra_locals.add(q)
+        return q
+
+    def qast(self, frame: FuncInfo, env, e: Optional[ast.AST]) -> Optional[ast.AST]:
+        if e is None:
+            return None
+        key = (id(e), id(env))
+        if key in self._qcache:
+            return self._qcache[key]
+        spl = self.ctx.an.spliced_at
+        needs = env is not None or any(id(x) in spl for x in ast.walk(e))
+        if not needs:
+            self._qcache[key] = e
+            return e
+        tr = self
+
+        def cp(x):
+            if isinstance(x, ast.Call) and id(x) in spl:
+                q = f"__ret@{tr.site_no(id(x))}"
+                tr.extra_locals.add(q)
+                return ast.copy_location(ast.Name(id=q, ctx=ast.Load()), x)
+            if isinstance(x, ast.Name):
+                return ast.copy_location(ast.Name(id=tr.qname(frame, env, x.id), ctx=x.ctx), x)
+            if isinstance(x, ast.AST):
+                new = type(x)()
+                for fld, val in ast.iter_fields(x):
+                    if isinstance(val, list):
+                        setattr(new, fld, [cp(v) for v in val])
+                    else:
+                        setattr(new, fld, cp(val))
+                for attr in ("lineno", "col_offset", "end_lineno", "end_col_offset"):
+                    if hasattr(x, attr):
+                        setattr(new, attr, getattr(x, attr))
+                return new
+            return x
+
+        out = cp(e)
+        self._qcache[key] = out
+        return out
+
+    def is_local(self, name: str) -> bool:
+        return name in self.sc.defs or name in self.extra_locals
 
     # ------------------------------------------------------------ classification
     def is_table(self, e: Optional[ast.AST]) -> bool:
@@ -52,7 +116,7 @@ class Tracker:
                 return "T"
             if env.get(e.id) == "aO":
                 return "OTHER"
-            if e.id in self.sc.defs:
+            if self.is_local(e.id):
                 return "L:" + e.id
         if isinstance(e, ast.Call) and isinstance(e.func, ast.Name) and e.func.id in ("set", "list", "tuple", "frozenset", "sorted") and len(e.args) == 1:
             return self.coll(e.args[0], env)
@@ -166,12 +230,36 @@ class Tracker:
         def transfer(ai: AbsInt, n: Node, lab: Label, st):
             places, envf, unk = set(st[0]), dict(st[1]), st[2]
             env = envf
-            a = n.ast
             normal = lab[0] in NORMAL_KINDS
             if not normal:
                 return [st]
+            op = n.op
+            if n.inlined is not None and op in ("call", "await") and n.benv is not None:
+                # entering a spliced helper: arguments that are not plain variables are bound to the helper's parameters
+                call0 = n.ast.value if isinstance(n.ast, ast.Await) else n.ast
+                states = [(places, env, unk)]
+                for pname, (caller, arg, cenv) in n.benv.items():
+                    if isinstance(arg, ast.Name):
+                        continue
+                    tgt = ast.Name(id=tr.qname(n.inlined, n.benv, pname), ctx=ast.Store())
+                    val = tr.qast(caller, cenv, arg)
+                    nxt = []
+                    for pl, en, uk in states:
+                        nxt += tr.assign(n, tgt, val, set(pl), dict(en), uk)
+                    states = nxt
+                return [pack(pl, en, uk) for pl, en, uk in states]
+            if op == "inl_ret":
+                return [st]
+            a = tr.qast(n.func, n.env, n.ast)
+            if op == "ret_inl" and n.env is not None:
+                if n.ast.value is None:
+                    return [st]
+                rn = f"__ret@{tr.site_no(ctx.an.env_site.get(id(n.env), id(n.env)))}"
+                tr.extra_locals.add(rn)
+                a = ast.Assign(targets=[ast.Name(id=rn, ctx=ast.Store())], value=a.value)
+                op = "assign"
             # ---- loop headers
-            if n.op == "iter" and isinstance(a, (ast.For,)):
+            if op == "iter" and isinstance(a, (ast.For,)):
                 it, tgt = a.iter, a.target
                 vis_key = "vis:%d" % a.lineno
                 if lab[0] == "F":
@@ -228,14 +316,14 @@ class Tracker:
                     return outs
                 return [st]
             # ---- tests
-            if n.op == "test" and lab[0] in ("T", "F"):
+            if op == "test" and lab[0] in ("T", "F"):
                 want = lab[0] == "T"
                 v = tr.truth(a, frozenset(places), env)
                 if v is not None and v != want:
                     return []
                 return [st]
             # ---- statements
-            if n.op == "assign" and isinstance(a, (ast.Assign, ast.AnnAssign)):
+            if op == "assign" and isinstance(a, (ast.Assign, ast.AnnAssign)):
                 targets = a.targets if isinstance(a, ast.Assign) else [a.target]
                 val = a.value
                 pairs = []
@@ -251,7 +339,7 @@ class Tracker:
                         nxt += tr.assign(n, t, v, set(pl), dict(en), uk)
                     states = nxt
                 return [pack(pl, en, uk) for pl, en, uk in states]
-            if n.op == "aug" and isinstance(a, ast.AugAssign):
+            if op == "aug" and isinstance(a, ast.AugAssign):
                 t, v = a.target, a.value
                 if isinstance(t, ast.Name) and isinstance(a.op, ast.BitOr):
                     m = tr.member(v, frozenset(places), env)
@@ -273,7 +361,7 @@ class Tracker:
                     unk = True
                     tr.unknown.append((n, "augmented assignment on tracked state"))
                 return [pack(places, env, unk)]
-            if n.op == "del":
+            if op == "del":
                 for t in a.targets:
                     if isinstance(t, ast.Subscript) and tr.is_table(t.value):
                         k = tr.key_of(t.slice, env)
@@ -283,8 +371,8 @@ class Tracker:
                             unk = True
                             tr.unknown.append((n, "del with an unknown key"))
                 return [pack(places, env, unk)]
-            if n.op == "call" and isinstance(a, ast.Call) and isinstance(a.func, ast.Attribute) and not n.comp:
-                if isinstance(n.stmt, (ast.Assign, ast.AnnAssign)) and getattr(n.stmt, "value", None) is a:
+            if op == "call" and isinstance(a, ast.Call) and isinstance(a.func, ast.Attribute) and not n.comp:
+                if isinstance(n.stmt, (ast.Assign, ast.AnnAssign)) and getattr(n.stmt, "value", None) is n.ast:
                     return [st]  # interpreted together with its assignment
                 return [pack(pl, en, uk) for pl, en, uk in tr.call(n, a, set(places), dict(env), unk, None)]
             return [st]
@@ -447,7 +535,7 @@ class Tracker:
                     unk = True
                     self.unknown.append((n, "table store with an unknown key"))
                 return [(places, env, unk)]
-            if isinstance(t.value, ast.Name) and t.value.id in self.sc.defs:
+            if isinstance(t.value, ast.Name) and self.is_local(t.value.id):
                 k = self.key_of(t.slice, env)
                 if k == "g0":
                     m = self.member(v, frozenset(places), env)
@@ -615,12 +703,12 @@ def r_spawner_kept(ctx: Ctx, rule: str, names=("_pop_ended_meta_tasks",)):
                 rep.ob(rule, "a spawner that is still running stays registered under its group", True, func=f, construct=f"{f.name}: membership of a running spawner at return",
                        detail=f"{len(rets)} exit state(s), {ai.product_states} product states")
             # the returned set must not contain the running spawner
-            for r in ctx.distinct_sites(ctx.nodes(f, lambda n: n.op == "return" and n.ast.value is not None)):
+            for r in ctx.distinct_sites(ctx.nodes(f, lambda n: n.op == "return" and n.func is f and n.ast.value is not None)):
                 bad = False
                 unknown = False
                 for (node_id, st) in ai.visited.get(f.qual, set()):
                     if node_id == r.id:
-                        m = tr.member(r.ast.value, st[0], dict(st[1]))
+                        m = tr.member(tr.qast(r.func, r.env, r.ast.value), st[0], dict(st[1]))
                         if m is True:
                             bad = True
                         elif m is None and not isinstance(r.ast.value, ast.Name):
